@@ -46,3 +46,12 @@ Proof.
     apply last_index_bound in Ek. rewrite map_length in Ek. rewrite nth_error_app1 by (rewrite map_length; lia). reflexivity.
 Qed.
 Print Assumptions last_arch_facts.
+
+Lemma last_index_is f : forall l k, last_index f l 0 None = Some k -> exists o v, nth_error l k = Some (f, o, v).
+Proof.
+  induction l as [|x l IH] using rev_ind; intros k H. discriminate.
+  rewrite last_index_app in H. destruct x as [[f' o] v]. cbn [last_index] in H. cbn [Nat.add] in H.
+  destruct (f' =? f) eqn:E.
+  - injection H as <-. apply N.eqb_eq in E. subst f'. exists o, v. rewrite nth_error_app2 by lia. rewrite Nat.sub_diag. reflexivity.
+  - pose proof (last_index_bound _ _ _ H) as Hb. destruct (IH _ H) as (o' & v' & Hn). exists o', v'. rewrite nth_error_app1; auto.
+Qed.
